@@ -479,7 +479,12 @@ mod if_alloc {
 
     pub mod shared {
         use super::*;
+        #[cfg(not(futures_intrusive_verif))]
         use core::sync::atomic::{AtomicUsize, Ordering};
+        #[cfg(futures_intrusive_verif)]
+        use crate::verif::atomic::AtomicUsize;
+        #[cfg(futures_intrusive_verif)]
+        use core::sync::atomic::Ordering;
 
         struct GenericStateBroadcastChannelSharedState<MutexType, T>
         where
